@@ -60,6 +60,23 @@ Definition trim_ok (pre post : list row) (max_height : Z) : bool :=
     else oprio_eqb (rows_at post h) None)
     (max_height :: max_height + 1 :: all_points pre post).
 
+(** a rewind to [target] (with forced rescan): unchanged at or below; above, nothing stays Scanned
+    and exactly the heights covered before stay covered *)
+Definition rewind_ok (pre post : list row) (target : Z) : bool :=
+  forallb (fun h =>
+    if h <=? target then oprio_eqb (rows_at post h) (rows_at pre h)
+    else negb (is_scanned_at post h) &&
+         Bool.eqb (oprio_eqb (rows_at post h) None) (oprio_eqb (rows_at pre h) None))
+    (target :: target + 1 :: all_points pre post).
+
+(** after a rewind the client re-scans exactly the blocks above the target *)
+Definition rescan_ok (target tip scanned : Z) (final sugg : list row) : bool :=
+  (scanned =? tip - target) &&
+  match sugg with [] => true | _ => false end &&
+  match rows_hi final with Some e => e =? tip + 1 | None => false end &&
+  forallb (fun r => spec_prio_eqb (snd r) Scanned || spec_prio_eqb (snd r) Ignored) final &&
+  is_scanned_at final (target + 1) && is_scanned_at final tip.
+
 (** the client loop: quiescent within the bound, everything from the birthday to the tip scanned *)
 Definition loop_ok (birthday tip steps rewound : Z) (final sugg : list row) (fully : option Z) : bool :=
   (steps <=? (tip - birthday + 1) + rewound) &&
